@@ -191,7 +191,8 @@ class Parser:
 
     def open_file(self, fn: str):
         try:
-            with open(fn, "r", encoding="utf-8") as f:
+            # newline="" keeps carriage returns inside (multi-line) string values as written
+            with open(fn, "r", encoding="utf-8", newline="") as f:
                 return f.read()
         except UnicodeDecodeError as ex:
             log.debug(ex)
